@@ -101,6 +101,8 @@ def judge(ctx: vf.Ctx, js: dict, r: dict, source: str) -> bool:
     width = js['circuit']['n'] if kind == 'circuit' else js['n']
     key = dict(kind=kind, level=lvl, model=gsname, shape=ms.get('shape'), n=ms['n'], tag=js.get('tag'),
                circ=js.get('circuit'), iseed=js.get('iseed'), seed=js.get('seed'))
+    if r.get('skipped'):
+        return False
     if r.get('timeout') or r.get('worker_failed'):
         ctx.count('compile_timeout' if r.get('timeout') else 'compile_worker_failed')
         return False
@@ -334,12 +336,13 @@ def run(ctx: vf.Ctx):
     broken_before = len(ctx.broken)
     t_c = time.time()
     if ctx.broken:
-        W.theorem_failure_search(ctx, 'c02', 110 if ctx.quick() else 900, judge, thorough_jobs)
+        W.theorem_failure_search(ctx, 'c02', 420 if ctx.quick() else 1200, judge, thorough_jobs)
     # ---- correspondence ---------------------------------------------------------------------
     if ctx.extract_ok.get('wfcompat'):
         correspondence(ctx, ctx.n(400, 4000))
     # ---- supporting real-compile() search ------------------------------------------------------
-    jobs = quick_jobs(ctx.rng) if ctx.quick() else thorough_jobs(ctx.rng, 100)
+    jobs = W.corpus_jobs('C02') + (quick_jobs(ctx.rng) if ctx.quick() else thorough_jobs(ctx.rng, 100))
+    ctx.cov['corpus_jobs'] = sum(1 for j in jobs if str(j.get('tag', '')).startswith('corpus:'))
     budget = max(60.0, 175.0 - (time.time() - t_c)) if ctx.quick() else 1500
     res = W.run_jobs(jobs, budget)
     for js, r in zip(jobs, res):
